@@ -88,7 +88,26 @@ def effective_primitive(case):
     return bool(case["ugp"])
 
 
+def run_layers(part, case):
+    from cspuz import graph
+
+    n, edges = case["n"], case["edges"]
+    key = "connected[two-layers,%s,%s]" % ("acyclic" if case["acyclic"] else "plain", "native" if case["ugp"] else "aux")
+
+    def post(s, g):
+        x = s.bool_array(n)
+        graph.active_vertices_connected(s, x, g, acyclic=case["acyclic"], use_graph_primitive=case["ugp"])
+        return list(x)
+
+    menu = [[False] * n, [True] * n, [v < 3 for v in range(n)], [v >= 3 for v in range(n)], [v == n - 1 for v in range(n)], [v in (0, n - 1) for v in range(n)]]
+    gcheck.run_two_layers(part, key, case, post, n, lambda p: oracle(n, edges, p, case["acyclic"]), menu)
+    part.add("scale", ("layers", (n, len(edges)), case["acyclic"]))
+
+
 def run_case(part, case, prange=None):
+    if case.get("layers"):
+        run_layers(part, case)
+        return
     n = case["n"]
     edges = case["edges"] if case["form"] != "grid" else graphref.grid_edges(*case["shape"])
     key = "connected[%s,%s,%s]" % (case["form"], "acyclic" if case["acyclic"] else "plain", "native" if effective_primitive(case) else "aux")
@@ -177,6 +196,13 @@ def cases_for(tier):
             for acyclic in (False, True):
                 for ugp in (False, True):
                     out.append({"form": "vars", "n": n, "edges": list(edges), "acyclic": acyclic, "ugp": ugp, "cfg": False, "intflags": True})
+    # the same Graph object and Solver used for two independent vertex layers
+    for n, es in gcheck.layer_graphs():
+        for acyclic in (False, True):
+            for ugp in (False, True):
+                if tier == "quick" and n > 3 and ugp:
+                    continue
+                out.append({"form": "vars", "n": n, "edges": list(es), "acyclic": acyclic, "ugp": ugp, "cfg": False, "layers": 2, "patterns": []})
     # multigraphs: parallel edges (same and opposite orientation) do not change connectivity, only trees
     for n in (2, 3):
         for edges in graphref.multigraphs(n, 4 if n == 2 else 4, 2 if n == 3 else 3):
